@@ -101,7 +101,7 @@ PROPS = {
         "kx": [],
         "technique": "Verus postcondition on the extracted Service::timestamp (returned > every earlier one, for any clock value) + inductive history lemma over that contract",
         "explanation": "Service::timestamp and the real Timestamp Add/Sub/From/Deref impls are verified: the returned timestamp equals the new last_timestamp, is strictly greater than the previous last_timestamp and >= the clock, for any clock value (no monotonicity assumed). lemma_strictly_increasing lifts the per-call contract to any history of calls interleaved with arbitrary clock writes.",
-        "not_decided": "Precondition last_timestamp < u64::MAX (saturating add stalls at 2^64-1 ms). That every announcement constructor uses the value just returned by timestamp() is checked in unit service (call sites), not here. localtime::LocalTime::as_millis assumed to return the stored millisecond count.",
+        "not_decided": "Precondition last_timestamp < u64::MAX (saturating add stalls at 2^64-1 ms). Call sites: add_inventory / remove_inventory / refresh_and_announce_inventory are under contract (the inventory message that is signed carries the timestamp issued last); refs_announcement_for, the node announcement and Service::initialize are not. localtime::LocalTime::as_millis assumed to return the stored millisecond count.",
     },
     "C14": {
         "vx": ["wire_frame"],
@@ -191,9 +191,9 @@ PROPS = {
     "C25": {
         "vx": ["sync"],
         "kx": [],
-        "technique": "Verus postconditions (both directions) on the extracted ReplicationFactor, Target::new, Announcer::{is_target_reached,synced_with,timed_out}, Fetcher::{is_target_reached,include_node} against a target_met spec written from the statement",
+        "technique": "Verus postconditions (both directions) on the extracted ReplicationFactor, Target::new, Announcer::{is_target_reached,synced_with,timed_out}, Fetcher::{is_target_reached,include_node,next_fetch,ready_to_fetch} against a target_met spec written from the statement",
         "explanation": "is_target_reached returns Some exactly when the target is met (announcer: all preferred seeds synced and the replica count reached; fetcher: all preferred seeds fetched or the replica count reached; the count is the maximum of a range, else the minimum); Announcer::timed_out reports Success exactly then and TimedOut otherwise; synced_with(local node) changes nothing; Fetcher::include_node excludes the local node and nodes that already have a result; ReplicationFactor::range/min keep lower < upper.",
-        "not_decided": "success_counts (fold closures), next_node / next_fetch (iterator adapters with closures), Announcer::new, Fetcher::finish, missing_seeds are not ingested; the counts are ghost values assumed to be what success_counts returns.",
+        "not_decided": "success_counts (fold closures), next_node (iter::from_fn + find_map), Announcer::new, Fetcher::finish, missing_seeds are not ingested; the counts are ghost values assumed to be what success_counts returns.",
     },
     "C26": {
         "vx": ["term"],
